@@ -10,11 +10,12 @@ assert not any(f["id"] == did for f in d["findings"]), did + " exists"
 e = {"status": status, "property": prop}
 if also: e["also"] = also
 if status == "fixed":
-    c = subprocess.run("git -C /repo log --format=%h -1", shell=True, capture_output=True, text=True).stdout.strip()
+    import os
+    c = os.environ.get("COMMIT") or subprocess.run("git -C /repo log --format=%h -1", shell=True, capture_output=True, text=True).stdout.strip()
     e.update({"commit": c, "id": did, "text": "fixed: property=%s %s %s" % (prop, c, text), "input": inp, "regress": reg})
 else:
     e.update({"id": did, "text": text, "input": inp, "identified_by": reg})
-e["found_by"] = "third bug-hunt round, lead " + lead
+e["found_by"] = "fourth bug-hunt round, lead " + lead
 d["findings"].append(e)
 json.dump(d, open(p, "w"), indent=1, ensure_ascii=False)
 print(did, e.get("commit", "known"))
